@@ -6,6 +6,7 @@ import (
 	"fmt"
 	"regexp"
 	"sort"
+	"strings"
 	"unicode"
 
 	"github.com/blugelabs/bluge/analysis"
@@ -151,17 +152,17 @@ func buildTokenizer(s FilterSpec) (analysis.Tokenizer, error) {
 }
 
 func genTokenizer(t *rapid.T) FilterSpec {
-	switch k := rapid.IntRange(0, 11).Draw(t, "tokenizerKind"); {
+	switch k := pick(t, "tokenizerKind", 12); {
 	case k <= 6:
 		// unicode is what the bundled analyzers use: weight it
-		return FilterSpec{Name: rapid.SampledFrom([]string{"single", "letter", "whitespace", "unicode", "unicode", "web", "whitespace"}).Draw(t, "tokenizer")}
+		return FilterSpec{Name: pickFrom(t, "tokenizer", []string{"single", "letter", "whitespace", "unicode", "unicode", "web", "whitespace"})}
 	case k <= 8:
-		return FilterSpec{Name: "regexp", S1: rapid.SampledFrom(regexpPatterns).Draw(t, "pattern")}
+		return FilterSpec{Name: "regexp", S1: pickFrom(t, "pattern", regexpPatterns)}
 	case k == 9:
-		return FilterSpec{Name: "character", S1: rapid.SampledFrom(predicateNames()).Draw(t, "predicate")}
+		return FilterSpec{Name: "character", S1: pickFrom(t, "predicate", predicateNames())}
 	default:
-		return FilterSpec{Name: "exception", S1: rapid.SampledFrom(exceptionPatterns).Draw(t, "exceptions"),
-			S2: rapid.SampledFrom([]string{"unicode", "whitespace", "letter", "single"}).Draw(t, "remaining")}
+		return FilterSpec{Name: "exception", S1: pickFrom(t, "exceptions", exceptionPatterns),
+			S2: pickFrom(t, "remaining", []string{"unicode", "whitespace", "letter", "single"})}
 	}
 }
 
@@ -189,9 +190,9 @@ func buildCharFilter(s FilterSpec) (analysis.CharFilter, error) {
 }
 
 func genCharFilter(t *rapid.T) FilterSpec {
-	n := rapid.SampledFrom([]string{"asciifolding", "asciifolding", "html", "html", "zwnj", "regexp", "regexp"}).Draw(t, "charFilter")
+	n := pickFrom(t, "charFilter", []string{"asciifolding", "asciifolding", "html", "html", "zwnj", "regexp", "regexp"})
 	if n == "regexp" {
-		p := rapid.SampledFrom(charRegexps).Draw(t, "charPattern")
+		p := pickFrom(t, "charPattern", charRegexps)
 		return FilterSpec{Name: n, S1: p[0], S2: p[1]}
 	}
 	return FilterSpec{Name: n}
@@ -286,6 +287,17 @@ func plainFilterNames() []string {
 	return n
 }
 
+// langFilterNames lists the parameterless filters: the bundled stop filters (stop=true) or the rest.
+func langFilterNames(stop bool) []string {
+	var n []string
+	for _, k := range plainFilterNames() {
+		if strings.HasPrefix(k, "stop_") == stop {
+			n = append(n, k)
+		}
+	}
+	return n
+}
+
 func tokenMap(words []string) analysis.TokenMap {
 	m := analysis.NewTokenMap()
 	for _, w := range words {
@@ -341,10 +353,13 @@ func genFilter(t *rapid.T, tx Text) FilterSpec {
 		"cjk_bigram", "cjk_bigram", "cjk_width", "dict_compound", "dict_compound", "edge_ngram", "edge_ngram", "ngram", "ngram", "shingle", "shingle", "shingle",
 		"truncate", "length", "elision", "stop", "keyword_marker", "unicode_normalize", "possessive_en"}
 	var name string
-	if rapid.IntRange(0, 9).Draw(t, "filterFamily") < 6 {
-		name = rapid.SampledFrom(generic).Draw(t, "filter")
-	} else {
-		name = rapid.SampledFrom(plainFilterNames()).Draw(t, "langFilter")
+	switch fam := pick(t, "filterFamily", 20); {
+	case fam < 10:
+		name = pickFrom(t, "filter", generic)
+	case fam < 18:
+		name = pickFrom(t, "langFilter", langFilterNames(false))
+	default:
+		name = pickFrom(t, "stopFilter", langFilterNames(true))
 	}
 	s := FilterSpec{Name: name}
 	switch name {
@@ -379,7 +394,7 @@ func genFilter(t *rapid.T, tx Text) FilterSpec {
 	case "stop", "keyword_marker":
 		s.Words = wordsFromText(t, tx, "words")
 	case "unicode_normalize":
-		s.S1 = rapid.SampledFrom([]string{"nfc", "nfd", "nfkc", "nfkd"}).Draw(t, "form")
+		s.S1 = pickFrom(t, "form", []string{"nfc", "nfd", "nfkc", "nfkd"})
 	}
 	return s
 }
@@ -387,7 +402,7 @@ func genFilter(t *rapid.T, tx Text) FilterSpec {
 // genPre draws a stage that only removes or marks tokens (terms and offsets stay what the
 // tokenizer produced), so that the filter under test also sees position gaps and keyword flags.
 func genPre(t *rapid.T, tx Text) FilterSpec {
-	switch rapid.IntRange(0, 3).Draw(t, "preKind") {
+	switch pick(t, "preKind", 4) {
 	case 0:
 		return FilterSpec{Name: "length", A: rapid.IntRange(0, 4).Draw(t, "preMin"), B: rapid.IntRange(0, 8).Draw(t, "preMax")}
 	case 1:
